@@ -18,7 +18,11 @@ RULE = ("restricted numbers: every restriction list of 1 or 2 comparisons over {
         "None and lists, called directly as T(v) and through parse_args / parse_object; every generated type is created from a "
         "caller-owned list object that is changed after the creation (append / clear / replace / drop+insert, optionally "
         "followed by the creation of the next type from the same list) or from a bare pair; the six predefined types by name; "
-        "restricted strings: the predefined and generated regexes x strings incl. prefixes and trailing newlines; "
+        "restricted strings: the predefined and generated regexes x strings incl. prefixes and trailing newlines, the regex "
+        "handed over as text or as a compiled Pattern, with flags IGNORECASE / DOTALL / VERBOSE / MULTILINE (and (?i)) and "
+        "strings whose match depends on the flag; registry histories: one pattern text registered twice with equal or "
+        "different flags under one name or two; "
+        "Decimals up to 70 significant digits, also under a lowered / raised decimal context precision; "
         "registered types: ranges/timedeltas/Decimals/secrets/complex/UUID/bytes/bytearray/pathlib values incl. extremes, "
         "serialised and read back through dump->parse_string, argv, a config file and a JSON dump, and handed to "
         "parse_object as already typed values, plus the deserializers on mutated texts. A case is non-trivial unless it is a plain in-range int; distinct = distinct "
@@ -35,6 +39,9 @@ TRUSTED = [
 ASSUMPTIONS = [
     "floats are modelled as fixed-point multiples of 10^-6 (|x| < 10^9), where Python's double comparisons are exact; "
     "generators stay inside that domain",
+    "IGNORECASE is modelled for ASCII letters: patterns with non-ASCII characters under IGNORECASE fail closed and candidate "
+    "strings avoid the non-ASCII characters that case-fold to ASCII (U+017F, U+212A, U+0130, U+0131); scoped inline flags, "
+    "re.ASCII / re.LOCALE and anchors elsewhere than at the two ends of a pattern are not modelled (fail closed)",
     "text contains no non-ASCII decimal digits (Python's int()/float()/\\d accept them; the model's \\d is ASCII)",
     "ints converted to float are below 2^53 in magnitude",
     "Decimal: float() and repr() are external functions; only the result of float() being a binary double is used "
@@ -963,7 +970,12 @@ META = {
                   "parser path (loaded value, retry with the original text) agrees; C20_operator_table: the operator table "
                   "regenerated from jsonargparse/typing.py denotes the six comparisons. Restricted strings: "
                   "C20_restricted_string_exact (derivative matcher proved sound and complete for the denotational language; "
-                  "re.match = prefix match, `$` allows one final newline). Registered types: C20_registry (the module-level "
+                  "re.match = prefix match, `$` allows one final newline, under MULTILINE any newline; IGNORECASE / DOTALL / "
+                  "VERBOSE are resolved by the translator), C20_string_type_creation (the registry of extend_base_type: inside "
+                  "the guard the type handed back accepts exactly what the GIVEN compiled pattern accepts), "
+                  "C20_string_type_creation_flags_in_key (with fixes/C20-string-type-key-ignores-flags.patch no guard is left, "
+                  "along any history of creations), C20_string_type_key_ignores_flags_refuted (open finding: the key is the "
+                  "pattern text only). Registered types: C20_registry (the module-level "
                   "register_type calls, regenerated from the source, bind each type to the modelled serializer/deserializer pair); "
                   "C20_range_roundtrip for ALL ranges over Z (empty ones included) and C20_range_regexes (the three patterns of "
                   "the source accept exactly what the model's scanner accepts, for every string); C20_timedelta_roundtrip for ALL "
